@@ -1444,6 +1444,36 @@ func tableSites(f *ssa.Function, ci ssa.CallInstruction, out map[string][]reqSit
 	if !ok {
 		return false
 	}
+	// a function member that may be missing: `row.when == nil || row.when(ig)` – no predicate means always
+	nilK := -1
+	var nilT []Edge
+	var nilCmp ssa.Value
+	allInstrs(f, func(in ssa.Instruction) {
+		b, isB := in.(*ssa.BinOp)
+		if !isB || (b.Op != token.EQL && b.Op != token.NEQ) {
+			return
+		}
+		x, y := b.X, b.Y
+		if k, isK := x.(*ssa.Const); isK && k.Value == nil {
+			x, y = y, x
+		}
+		if k, isK := y.(*ssa.Const); !isK || k.Value != nil {
+			return
+		}
+		if _, isSig := x.Type().Underlying().(*types.Signature); !isSig {
+			return
+		}
+		kk, ok := elemField(x, elems)
+		if !ok {
+			return
+		}
+		t, fl := boolEdges(b)
+		if b.Op == token.NEQ {
+			t = fl
+		}
+		nilK, nilT, nilCmp = kk, t, b
+	})
+	nilAlways := false
 	// the guard: a boolean member of the row, or a call of a function member of the row
 	kCond := -1
 	var guard ssa.Value
@@ -1465,6 +1495,8 @@ func tableSites(f *ssa.Function, ci ssa.CallInstruction, out map[string][]reqSit
 		}
 		if t, _ := boolEdges(v); len(t) > 0 && guardedByEdges(f, ci, t) {
 			kCond, guard = k, v
+		} else if len(t) > 0 && k == nilK && guardedByEdges(f, ci, append(append([]Edge{}, t...), nilT...)) {
+			kCond, guard, nilAlways = k, v, true
 		}
 	})
 	// nothing else decides whether the call runs
@@ -1473,7 +1505,7 @@ func tableSites(f *ssa.Function, ci ssa.CallInstruction, out map[string][]reqSit
 		if !isIf || b == ci.Block() || !b.Dominates(ci.Block()) {
 			continue
 		}
-		if allowedGuard(iff.Cond) || (guard != nil && iff.Cond == guard) {
+		if allowedGuard(iff.Cond) || (guard != nil && iff.Cond == guard) || (nilAlways && iff.Cond == nilCmp) {
 			continue
 		}
 		if b.Succs[0].Dominates(ci.Block()) != b.Succs[1].Dominates(ci.Block()) {
@@ -1488,7 +1520,9 @@ func tableSites(f *ssa.Function, ci ssa.CallInstruction, out map[string][]reqSit
 		rs := reqSite{fn: f, at: ci, tbl: true}
 		if kCond >= 0 {
 			rs.cond = r[kCond]
-			if rs.cond == nil {
+			if k, isK := rs.cond.(*ssa.Const); isK && k.Value == nil && nilAlways {
+				rs.cond = nil // no predicate: always
+			} else if rs.cond == nil && !nilAlways {
 				return false
 			}
 		}
